@@ -197,9 +197,29 @@ def c08_spellings(r, seed, tier, model_ok):
     a = impl_run([dict(text=p["text"], trace=False) for p in progs]); b = impl_run(variants)
     bad = [dict(program=v["text"], impl=vlib.decode_v(_main_out(y)), model="unpadded: " + p["text"] + " -> " + vlib.decode_v(_main_out(x)), which=["padding"])
            for p, v, x, y in zip(progs, variants, a, b) if (_main_out(x), x.split("\t")[1]) != (_main_out(y), y.split("\t")[1]) and "TIMEOUT" not in x + y]
-    changed = sum(1 for p, v in zip(progs, variants) if p["text"] != v["text"])
+    # file modes, handle commands and whence words are literals too (looked up by VALUE in the mode / command / whence tables): the same file
+    # programs with every literal word padded, on the same files
+    import slices_world
+    fprogs = []
+    for i in range(N(tier, 150, 2500)):
+        mode = R.choice(list(slices_world.MODES)); can_r = mode in ("rb", "r+b", "w+b", "a+b"); can_w = mode != "rb"; ops = []
+        for _ in range(R.randrange(1, 7)):
+            k = R.choice(["read", "write", "tell", "seekset", "seekcur", "trunc", "truncn"])
+            if k == "read" and can_r: ops.append(("read", R.choice([-1, 0, 1, 3])))
+            elif k == "write" and can_w: ops.append(("write", bytes(R.randrange(256) for _ in range(R.randrange(1, 4)))))
+            elif k == "tell": ops.append(("tell",))
+            elif k == "seekset": ops.append(("seekset", R.choice([0, 1, 5])))
+            elif k == "seekcur": ops.append(("seekcur", R.choice([0, 1, 2])))
+            elif k == "trunc" and can_w: ops.append(("trunc",))
+            elif k == "truncn" and can_w: ops.append(("truncn", R.choice([0, 2, 9])))
+        t = slices_world.file_program("f", mode, ops or [("tell",)])
+        fprogs.append((t, re.sub(r"[ㄱㄴㄷㄹㅁㅂㅅㅇㅈㅎ]+", lambda m: pad(m.group(0)), t), {"f": bytes(R.randrange(256) for _ in range(R.randrange(0, 12)))}))
+    fa = impl_run([dict(text=t, files=fl, trace=False) for t, _, fl in fprogs]); fb = impl_run([dict(text=v, files=fl, trace=False) for _, v, fl in fprogs])
+    bad += [dict(program=v, impl=vlib.decode_v(_main_out(y)), model="unpadded: " + t + " -> " + vlib.decode_v(_main_out(x)), which=["padding-file-words"])
+            for (t, v, _), x, y in zip(fprogs, fa, fb) if _main_out(x) != _main_out(y) and "TIMEOUT" not in x + y]
+    changed = sum(1 for p, v in zip(progs, variants) if p["text"] != v["text"]) + sum(1 for t, v, _ in fprogs if t != v)
     r.slice("padded_spellings", len(progs), changed, [variants[0]["text"]], dict(generator=dict(stats), programs_with_a_padded_literal=changed),
-            "every literal position of a generated program padded with 0-2 pairs of ㄱ; oracle: equal outcome; distinct = programs actually changed", bad)
+            "every literal position of a generated program padded with 0-2 pairs of ㄱ - file programs (modes, handle commands, whence words) on real files included; oracle: equal outcome; distinct = programs actually changed", bad)
 
 # ------------------------------------------------------------------ C09
 def _ser(a, AS):
